@@ -166,4 +166,49 @@ func init() {
 			return js
 		},
 	})
+	register(&Plan{
+		Prop:  "C12",
+		Level: "exploration",
+		Rule: "matrix: the complete product {7 entry-point families that can carry the severity: verb, Context verb, LogAttrs, Logit, Log(log/slog level), package verb, package Context verb} x {Panic, Fatal} x {no-interrupt flag} x {interrupt-always flag} x {production, under-go-test process} x {admitted, not} x {json, logfmt, color} x {root, child | default} = 1152 cells (package functions only exist for the default logger); " +
+			"each cell is ONE child process built from the tree performing ONE call with an unbuffered file as destination; the parent observes exit status, the recovered panic value and the file. thorough = all cells, quick = every 8th cell starting at VERIF_SEED mod 8 (all 8 quick seeds together cover the matrix). " +
+			"negative: 8 probe processes (mode x flags) issue every other severity through every entry point (~350 calls each) and must survive. non-trivial = every judged cell; distinct = by cell",
+		Assumptions: []string{"a record present in the unbuffered file was written before the process terminated", "a 60 s watchdog per probe process; a timeout is inconclusive"},
+		Floors:      map[string]int64{"probe_processes": 100, "panics_observed": 5, "fatal_exits_observed": 5, "normal_returns_observed": 50, "non_terminating_calls_observed": 1000},
+		Exhaustive:  func(t string) bool { return t == "thorough" },
+		Jobs: func(tier string, seed int64) []Job {
+			var js []Job
+			if tier == "thorough" {
+				js = chunk("matrix", "prod", 1152, 72, Job{Timeout: 30 * time.Minute})
+			} else {
+				off := int(((seed % 8) + 8) % 8)
+				for i := off; i < 1152; i += 8 {
+					js = append(js, Job{Sub: "matrix", Mode: "prod", From: i, To: i + 1, Timeout: 10 * time.Minute})
+				}
+				// group them: one job per 16 cells
+				var g []Job
+				for i := 0; i < len(js); i += 1 {
+					g = append(g, js[i])
+				}
+				js = g
+			}
+			js = append(js, chunk("negative", "prod", 8, 1, Job{Timeout: 10 * time.Minute})...)
+			return js
+		},
+	})
+	register(&Plan{
+		Prop:  "C13",
+		Level: "fault_enumeration",
+		Rule: "complete enumeration of {6 writer configurations: 1-2 normal, 1-2 error, 0-2 per-level writers, one with the same writer in both classes} x {logger level Always, Trace, Info, Error, Panic} x {all call sequences of length 1..n over 5 severity classes: normal, error-class, Warn, per-level, custom error device} x {ALL fail/succeed assignments to the first N write attempts (global order across the fault-injecting writers; odd attempts fail with a short count)}; quick n=2,N=6 (57 600 cases), thorough n=3,N=10 (4 761 600 cases). " +
+			"After the faulted calls a healthy round issues every class again. Oracle per call over the attempt log: returns without panic; every selected destination is handed the complete record exactly once; diagnostics only at the warning destinations, at most one each, none for a Warn record / unfailed record / logger not admitting Warn; attempts <= |selected|+|warning destinations|; healthy round: normal delivery and no diagnostic. " +
+			"non-trivial = case in which at least one Write of a record failed; distinct = by case index",
+		Assumptions: []string{"a failed attempt counts as 'handed the record once' (the library does not retry)", "destination selection by the C03 model, admission by the C01 rule"},
+		Floors:      map[string]int64{"schedules": 1000, "calls_with_a_failing_write": 1000, "diagnostic_records_seen": 200},
+		Exhaustive:  func(string) bool { return true },
+		Jobs: func(tier string, seed int64) []Job {
+			if tier == "thorough" {
+				return chunk("enum", "prod", 6*5*155*1024, 150000, Job{Timeout: 60 * time.Minute})
+			}
+			return chunk("enum", "prod", 6*5*30*64, 3600, Job{Timeout: 20 * time.Minute})
+		},
+	})
 }
